@@ -1,6 +1,7 @@
 #!/bin/bash
-# tools/seedcheck.sh <id> <check> [<check> ...]: store the seeded change found in /tmp/wt_<id> (if that worktree exists) under seeded/<id>, confirm its demo fails
-# with / passes without the change, run the given checks against /repo with the change applied, and undo it.
+# tools/seedcheck.sh <id> <check> [<check> ...]: store the seeded change found in /tmp/wt_<id> (/tmp/wt2_<id> for <id>-2, /tmp/wt3_<id> for <id>-3; if that worktree
+# exists) under seeded/<id>, confirm its demo fails with / passes without the change, and run the given checks against a scratch copy of /repo (outside /repo and /verif,
+# removed afterwards) with the change applied.  SEEDCHECK_INPLACE=1 applies it to /repo itself instead (git -C /repo apply ... / git -C /repo checkout -- .).
 id=$1; shift
 S=/verif/seeded/$id
 mkdir -p $S
@@ -10,12 +11,24 @@ if [ -d $WT ]; then
   git -C $WT diff -- beyond > $S/patch.diff
   cp $WT/demo.py $WT/meta.json $S/
 fi
-test -z "$(git -C /repo status --short)" || { echo "/repo not clean"; exit 2; }
-(cd /repo; PYTHONPATH=/repo /venv/bin/python $S/demo.py >/dev/null 2>&1; echo "demo clean exit=$?")
-git -C /repo apply $S/patch.diff || exit 2
-(cd /repo; PYTHONPATH=/repo /venv/bin/python $S/demo.py >/dev/null 2>&1; echo "demo mutant exit=$?")
+if [ -n "$SEEDCHECK_INPLACE" ]; then
+  test -z "$(git -C /repo status --short)" || { echo "/repo not clean"; exit 2; }
+  (cd /repo; PYTHONPATH=/repo /venv/bin/python $S/demo.py >/dev/null 2>&1; echo "demo clean exit=$?")
+  git -C /repo apply $S/patch.diff || exit 2
+  (cd /repo; PYTHONPATH=/repo /venv/bin/python $S/demo.py >/dev/null 2>&1; echo "demo mutant exit=$?")
+  for p in "$@"; do
+    PYVC_NO_EVIDENCE=1 /verif/check $p 2>&1 | grep "VIOLATION\|^C[0-9]*:\|UNDECIDED\|CHECKER" | cut -c1-220 | head -8
+  done
+  git -C /repo checkout -- .
+  git -C /repo status --short | head -3
+  exit 0
+fi
+D=$(mktemp -d /tmp/seedcheck_XXXXXX)
+cp -r /repo/beyond /repo/tests $D/
+(cd $D; PYTHONPATH=$D /venv/bin/python $S/demo.py >/dev/null 2>&1; echo "demo clean exit=$?")
+patch -s -p1 -d $D < $S/patch.diff || { rm -rf $D; exit 2; }
+(cd $D; PYTHONPATH=$D /venv/bin/python $S/demo.py >/dev/null 2>&1; echo "demo mutant exit=$?")
 for p in "$@"; do
-  PYVC_NO_EVIDENCE=1 /verif/check $p 2>&1 | grep "VIOLATION\|^C[0-9]*:\|UNDECIDED\|CHECKER" | cut -c1-220 | head -8
+  BEYOND_REPO=$D PYVC_NO_EVIDENCE=1 /verif/check $p 2>&1 | grep "VIOLATION\|^C[0-9]*:\|UNDECIDED\|CHECKER" | cut -c1-220 | head -8
 done
-git -C /repo checkout -- .
-git -C /repo status --short | head -3
+rm -rf $D
